@@ -32,7 +32,12 @@ IrpfSur  == Combo("IRPF", TRUE, "", "", "", P(15, 2), P(1, 2))
 TaxSets == {<<VatStd>>, <<VatStdX>>, <<VatEqs>>, <<VatExt>>, <<VatPT>>, <<VatZero>>, <<VatEx>>, <<VatExPT>>,
             <<VatRed>>, <<VatStd, Irpf>>, <<VatEqs, IrpfSur>>, <<Irpf>>, <<>>}
 Rows == {[total |-> AOf(t[1], t[2]), taxes |-> ts] : t \in Totals, ts \in TaxSets}
-RowSeqs == UNION {[1..n -> Rows] : n \in 1..MaxRows}
+\* sequences of one and two rows over the full alphabet; of three rows (thorough) over a reduced one, so that the
+\* exported set stays below TLC's limit of 10^6 elements per set
+Rows3 == {[total |-> AOf(t[1], t[2]), taxes |-> ts] : t \in {<<1005, 2>>, <<0 - 1005, 2>>, <<12345, 4>>},
+                                                      ts \in {<<VatStd>>, <<VatStdX>>, <<VatEqs>>, <<VatExt>>, <<VatPT>>, <<VatEx>>, <<VatEqs, IrpfSur>>}}
+RowSeqs == UNION {[1..n -> Rows] : n \in 1..(IF MaxRows > 2 THEN 2 ELSE MaxRows)}
+           \cup (IF MaxRows > 2 THEN [1..3 -> Rows3] ELSE {})
 
 \* summaries used for the combination laws: one- and two-row builds over a reduced alphabet
 SmallTax == {<<VatStd>>, <<VatEqs>>, <<VatEx>>, <<VatStd, Irpf>>, <<VatEqs, IrpfSur>>, <<VatPT>>}
